@@ -151,7 +151,7 @@ func procReplay(oracles []procOracle) func(cj []byte) []ev.Violation {
 	}
 }
 
-func hasRecording(d *PDrv) bool { return len(d.recordings('m')) > 0 }
+func hasRecording(d *PDrv) bool     { return len(d.recordings('m')) > 0 }
 func hasTwoRecordings(d *PDrv) bool { return len(d.recordings('m')) > 1 }
 
 var devRecorder = []string{"B", "R", "1d", "1s", "1c5"}
